@@ -2,8 +2,10 @@
    here) index files: tab-separated decimal fields, LF-terminated lines.
      noodles-fasta/src/fai/io/writer/record.rs, fai/io/reader.rs, fai/io/reader/record.rs
      noodles-cram/src/crai/io/writer/record.rs, crai/io/reader.rs, crai/io/reader/record.rs
-   Readers: BufRead::read_line into a String (InvalidData when the line is not UTF-8), strip the
-   LF and a CR before it, split on the first 4 (5) tabs, parse the fields with str::parse.
+   Readers: crai reads each line into a String (InvalidData when the line is not UTF-8); fai reads
+   it as bytes (the name is any bytes up to the first TAB; only the numeric fields go through
+   str::from_utf8); both strip the LF and a CR before it, split on the first 5 (4) tabs, parse the
+   fields with str::parse.
    None = any io::Error.  Definitions only; proofs in TextIndexProofs.v. *)
 From Coq Require Import List NArith ZArith Bool.
 From NV Require Import Base.Decimal.
@@ -64,16 +66,20 @@ Fixpoint strip_cr (l : list N) : list N :=
               end
   end.
 
-(* the line loop shared by both readers: [parse] is parse_record *)
-Fixpoint read_lines {A} (fuel : nat) (parse : list N -> option A) (bs : list N) : option (list A) :=
+(* the line loop shared by both readers: [parse] is parse_record; [check] is the validation the
+   line reader applies to the raw line (up to and without the LF) before anything else:
+     crai: BufRead::read_line into a String  -> the line must be valid UTF-8 (InvalidData otherwise)
+     fai : BufRead::read_until into a Vec<u8> (since the `fix:` commit 24986d3) -> no check *)
+Fixpoint read_lines_gen {A} (check : list N -> bool) (fuel : nat) (parse : list N -> option A)
+    (bs : list N) : option (list A) :=
   match fuel with
   | O => None
   | S f =>
       match bs with
-      | [] => Some []                       (* read_line returned 0 *)
+      | [] => Some []                       (* the line reader returned 0 *)
       | _ =>
           let '(raw, rest) := break_at LF bs in
-          if utf8_valid raw then
+          if check raw then
             let line := match rest with Some _ => strip_cr raw | None => raw end in
             match parse line with
             | None => None
@@ -81,7 +87,7 @@ Fixpoint read_lines {A} (fuel : nat) (parse : list N -> option A) (bs : list N) 
                 match rest with
                 | None => Some [r]
                 | Some rest' =>
-                    match read_lines f parse rest' with
+                    match read_lines_gen check f parse rest' with
                     | None => None
                     | Some rs => Some (r :: rs)
                     end
@@ -91,11 +97,21 @@ Fixpoint read_lines {A} (fuel : nat) (parse : list N -> option A) (bs : list N) 
       end
   end.
 
+(* lines read as Strings (crai) / as bytes (fai) *)
+Definition read_lines {A} := @read_lines_gen A utf8_valid.
+Definition no_check (_ : list N) : bool := true.
+Definition read_lines_bytes {A} := @read_lines_gen A no_check.
+
 (* <u64 as FromStr>::from_str: optional '+', digits, no '-', range checked *)
 Definition u64_max : Z := 18446744073709551615%Z.
 Definition parse_u64 (s : list N) : option N := option_map Z.to_N (parse_int false 0 u64_max s).
 Definition parse_nz_u64 (s : list N) : option N :=
   match parse_u64 s with Some 0 => None | o => o end.
+(* the fai reader's numeric fields are byte slices: str::from_utf8 (InvalidData when it fails) and
+   then str::parse.  The UTF-8 step never decides alone: a field that parses is ASCII
+   (TextIndexProofs.parse_u64_bytes_eq), so parse_fai_rec uses parse_u64 / parse_nz_u64 directly *)
+Definition parse_u64_bytes (s : list N) : option N := if utf8_valid s then parse_u64 s else None.
+Definition parse_nz_u64_bytes (s : list N) : option N := if utf8_valid s then parse_nz_u64 s else None.
 
 (* ---------- fai ---------- *)
 Record fai_rec := mkfai { f_name : list N; f_len : N; f_pos : N; f_lb : N; f_lw : N }.
@@ -127,7 +143,7 @@ Definition parse_fai_rec (s : list N) : option fai_rec :=
   end.
 
 Definition read_fai (bs : list N) : option (list fai_rec) :=
-  read_lines (S (length bs)) parse_fai_rec bs.
+  read_lines_bytes (S (length bs)) parse_fai_rec bs.
 
 (* ---------- crai (the text inside the gzip member) ---------- *)
 Record crai_rec := mkcrai {
